@@ -282,3 +282,69 @@ func ZZ_C10_ReaderWriter() {
 	zzAssert(zzCell() == c0+2 && r.revisionCache == c0+2, "C10.reader-writer.increment-lost-after-overlapping-query")
 	zzReach("C10.reader-writer.done")
 }
+
+// C17 (attachment outlives a failing operation): a management operation on an open
+// (attached) server fails because one file-system call fails.  The server must still
+// hold its replica - only close / delete detach it - so the status it reports is not
+// "closed" and a second Open is refused: a replica that was never closed cannot be
+// attached again.
+func ZZ_C17_FailedOpKeepsAttachment() {
+	s, fs := ZZServer("open", 2)
+	r := s.r
+	r.mode = types.RW
+	op := zzConcretize(zzChoice("op", 7))
+	fs.Steps = 0
+	fs.FailAt = zzConcretize(zzChoice("failAt", 40))
+	zzTrapFatal()
+	var err error
+	opname := ""
+	ended := zzTry(func() {
+		switch op {
+		case 0:
+			opname = "Reload"
+			err = s.Reload()
+		case 1:
+			opname = "Revert"
+			err = s.Revert("volume-snap-a.img", "t")
+		case 2:
+			opname = "Snapshot"
+			err = s.Snapshot("n", zzNondetBool("user"), "t")
+		case 3:
+			opname = "Resize"
+			err = s.Resize("32K")
+		case 4:
+			opname = "SetRebuilding"
+			err = s.SetRebuilding(true)
+		case 5:
+			opname = "SetCheckpoint"
+			err = s.SetCheckpoint("volume-snap-a.img")
+		default:
+			opname = "RemoveDiffDisk"
+			err = s.RemoveDiffDisk("volume-snap-a.img")
+		}
+	})
+	if !fs.Failed {
+		zzAssume(false) // the failing index lies beyond the operation
+	}
+	if ended {
+		return // the replica process chose to exit: nothing is attached any more
+	}
+	fs.Revive()
+	zzReach("C17.failed-op.injected")
+	if err != nil {
+		zzReach("C17.failed-op.reported")
+	}
+	zzAssert(s.r != nil, "C17.failed-"+opname+"-detached-the-replica-without-closing-it")
+	if s.r == nil {
+		st, _ := s.Status()
+		zzAssert(st != Closed && st != Initial, "C17.server-reports-closed-after-failed-"+opname)
+		return
+	}
+	st, _ := s.Status()
+	zzAssert(st != Closed && st != Initial, "C17.server-reports-closed-after-failed-"+opname)
+	held := s.r
+	oerr := s.Open()
+	zzAssert(oerr != nil, "C17.Open-accepted-after-failed-"+opname)
+	zzAssert(s.r == held, "C17.attached-replica-replaced-after-failed-"+opname)
+	zzAssert(zzLockDepth(&s.RWMutex) == 0, "C17.failed-op.lock-left-held")
+}
